@@ -56,6 +56,14 @@ theorem modify_mid (pre rest : List Op) (ph : Op) (f : Op → Op) :
   | nil => simp [List.modify]
   | cons x xs ih => simp [List.modify_cons, ih]
 
+@[simp] theorem patchTo_ra (b : B) (i t : Nat) : (b.patchTo i t).ra = b.ra := rfl
+@[simp] theorem patchTry_ra (b : B) (i t : Nat) : (b.patchTry i t).ra = b.ra := rfl
+
+theorem modify_at (l pre rest : List Op) (ph : Op) (f : Op → Op) (i : Nat) (hl : l = pre ++ ph :: rest)
+    (hi : i = pre.length) : l.modify i f = pre ++ f ph :: rest := by
+  subst hl hi
+  exact modify_mid pre rest ph f
+
 theorem patch_code (b : B) (pre rest : List Op) (ph : Op) (h : b.code = pre ++ ph :: rest) :
     (b.patch pre.length).code = pre ++ retarget ph (pre.length + 1 + rest.length) :: rest := by
   simp only [B.patch, h, modify_mid]
@@ -515,6 +523,81 @@ theorem compileInner_eq : ∀ (s : Stmt) (b : B), b.ra.free = [] →
       bb ++ bc ++ [.jumpIfTrue b.ra.next b.code.length], by simp [h3], by simp [h4], ?_⟩
     simp [Rel, B.free, RegAlloc.free, c2, n2, n1, f2, s2, c1, s1]
     omega
+  | .throw_ e, b, hf => by
+    simp only [compileInner, codeS, alloc_eq' b hf]
+    by_cases hn : b.ra.next = 255
+    · exact Or.inl (by simp [hn])
+    simp only [hn, if_false, Option.bind_eq_bind, Option.bind_some]
+    have ih := compileE_eq e b.ra.next b.bump (by simpa using hf)
+    rw [bump_next, bump_code] at ih
+    rcases ih with ⟨h1, h2⟩ | ⟨b1, be, h1, h2, hr⟩
+    · exact Or.inl (by simp [h1, h2])
+    obtain ⟨c1, n1, f1, s1, m1⟩ := hr
+    simp only [bump_code, bump_next, bump_saved, bump_max] at c1 n1 f1 s1 m1
+    refine Or.inr ⟨(b1.emit (.throw_ b.ra.next)).free b.ra.next, be ++ [.throw_ b.ra.next], by simp [h1], by simp [h2], ?_⟩
+    simp [Rel, B.free, RegAlloc.free, c1, n1, f1, s1]
+    omega
+  | .tryCatch body handler, b, hf => by
+    simp only [compileInner, codeS]
+    have ihb := compileL_eq body ((b.emit (.pushTry 0)).emit .pushScope) (by simpa using hf)
+    simp only [emit_ra, emit_code, List.length_append, List.length_singleton] at ihb
+    rcases ihb with ⟨h1, h2⟩ | ⟨b2, bb, h1, h2, hr2⟩
+    · exact Or.inl (by simp [h1, h2])
+    obtain ⟨c2, n2, f2, s2, m2⟩ := hr2
+    simp only [emit_ra, emit_code] at c2 n2 f2 s2 m2
+    simp only [h1, h2, Option.bind_eq_bind, Option.bind_some]
+    have ihh := compileL_eq handler ((((b2.emit .popScope).emit .popTry).emit (.jump 0)).emit .pushScope) (by simpa using f2)
+    simp only [emit_ra, emit_code, n2, c2, List.length_append, List.length_singleton] at ihh
+    have hbase : b.code.length + 1 + 1 + bb.length + 1 + 1 + 1 + 1 = b.code.length + 2 + bb.length + 3 + 1 := by omega
+    rw [hbase] at ihh
+    rcases ihh with ⟨h3, h4⟩ | ⟨b6, bh, h3, h4, hr6⟩
+    · exact Or.inl (by simp [c2, h3, h4])
+    obtain ⟨c6, n6, f6, s6, m6⟩ := hr6
+    simp only [emit_ra, emit_code] at c6 n6 f6 s6 m6
+    have hcomp : compileL handler ((((b2.emit .popScope).emit .popTry).emit (.jump 0)).emit .pushScope) = some b6 := by
+      rw [← h3]
+    simp only [hcomp, h4, Option.bind_some]
+    -- the code before the three patches
+    have c8 : ((b6.emit .popScope).emit (.jump 0)).code =
+        b.code ++ .pushTry 0 :: .pushScope :: (bb ++ .popScope :: .popTry :: .jump 0 :: .pushScope :: (bh ++ [.popScope, .jump 0])) := by
+      simp [c6, c2]
+    have l2 : ((b2.emit .popScope).emit .popTry).code.length = b.code.length + 2 + bb.length + 2 := by
+      simp [c2]; omega
+    have l7 : (b6.emit .popScope).code.length = b.code.length + 2 + bb.length + 3 + 1 + bh.length + 1 := by
+      simp [c6, c2]; omega
+    have l8 : ((b6.emit .popScope).emit (.jump 0)).code.length = b.code.length + 2 + bb.length + 3 + 1 + bh.length + 2 := by
+      simp [c6, c2]; omega
+    have l4 : (((b2.emit .popScope).emit .popTry).emit (.jump 0)).code.length = b.code.length + 2 + bb.length + 3 := by
+      simp [c2]; omega
+    rw [l2, l7, l8, l4]
+    have c9 : (((b6.emit .popScope).emit (.jump 0)).patchTo (b.code.length + 2 + bb.length + 2)
+          (b.code.length + 2 + bb.length + 3 + 1 + bh.length + 2)).code =
+        b.code ++ .pushTry 0 :: .pushScope :: (bb ++ .popScope :: .popTry ::
+          .jump (b.code.length + 2 + bb.length + 3 + 1 + bh.length + 2) :: .pushScope :: (bh ++ [.popScope, .jump 0])) := by
+      simp only [B.patchTo, c8]
+      rw [modify_at _ (b.code ++ .pushTry 0 :: .pushScope :: (bb ++ [.popScope, .popTry])) (.pushScope :: (bh ++ [.popScope, .jump 0]))
+        (.jump 0) _ _ (by simp) (by simp; omega)]
+      simp [retarget]
+    have c10 : ((((b6.emit .popScope).emit (.jump 0)).patchTo (b.code.length + 2 + bb.length + 2)
+          (b.code.length + 2 + bb.length + 3 + 1 + bh.length + 2)).patchTo (b.code.length + 2 + bb.length + 3 + 1 + bh.length + 1)
+          (b.code.length + 2 + bb.length + 3 + 1 + bh.length + 2)).code =
+        b.code ++ .pushTry 0 :: .pushScope :: (bb ++ .popScope :: .popTry ::
+          .jump (b.code.length + 2 + bb.length + 3 + 1 + bh.length + 2) :: .pushScope ::
+            (bh ++ [.popScope, .jump (b.code.length + 2 + bb.length + 3 + 1 + bh.length + 2)])) := by
+      rw [B.patchTo, c9]
+      simp only []
+      rw [modify_at _ (b.code ++ .pushTry 0 :: .pushScope :: (bb ++ .popScope :: .popTry ::
+          .jump (b.code.length + 2 + bb.length + 3 + 1 + bh.length + 2) :: .pushScope :: (bh ++ [.popScope]))) [] (.jump 0) _ _
+        (by simp) (by simp; omega)]
+      simp [retarget]
+    refine Or.inr ⟨_, _, rfl, rfl, ?_⟩
+    refine ⟨?_, by simp [n6, n2], by simp [f6], by simp [s6, s2], by simp; omega⟩
+    rw [B.patchTry, c10]
+    simp only []
+    rw [modify_at _ b.code (.pushScope :: (bb ++ .popScope :: .popTry ::
+        .jump (b.code.length + 2 + bb.length + 3 + 1 + bh.length + 2) :: .pushScope ::
+          (bh ++ [.popScope, .jump (b.code.length + 2 + bb.length + 3 + 1 + bh.length + 2)]))) (.pushTry 0) _ _
+      (by simp) rfl]
 termination_by s => (sizeOf s, 0)
 
 theorem compileL_eq : ∀ (ss : List Stmt) (b : B), b.ra.free = [] →
